@@ -827,7 +827,7 @@ func (vfs *MemFS) removeAll(parent *dirNode) error {
 // If newpath already exists and is not a directory, Rename replaces it.
 // OS-specific restrictions may apply when oldpath and newpath are in different directories.
 // If there is an error, it will be of type *LinkError.
-func (vfs *MemFS) Rename(oldpath, newpath string) error {
+func (vfs *MemFS) Rename(oldpath, newpath string) (err error) {
 	const op = "rename"
 
 	oParent, oChild, oPI, oErr := vfs.searchNode(oldpath, slmLstat)
@@ -847,6 +847,15 @@ func (vfs *MemFS) Rename(oldpath, newpath string) error {
 		first, second = nParent, oParent
 	}
 
+	// Deferred before the locks are taken, so that the call starts again after they are released.
+	again := false
+
+	defer func() {
+		if again {
+			err = vfs.Rename(oldpath, newpath)
+		}
+	}()
+
 	avfs.VerifBeforeLock(&first.mu, true)
 	first.mu.Lock()
 	defer first.mu.Unlock()
@@ -864,7 +873,10 @@ func (vfs *MemFS) Rename(oldpath, newpath string) error {
 	// The directories may have changed since they were walked without a lock held: both names are looked up again.
 	// (A root directory is its own parent and has no name to look up.)
 	if oChild != node(oParent) && oParent.children[oPI.Part()] != oChild {
-		return &os.LinkError{Op: op, Old: oldpath, New: newpath, Err: vfs.err.NoSuchFile}
+		// The old name was removed or replaced in the meantime : both paths are resolved again.
+		again = true
+
+		return nil
 	}
 
 	if nChild != node(nParent) {
